@@ -154,6 +154,6 @@ Section Path.
     cbn [filter] in A, B, C, D.
     rewrite (rres_eta (run_kids (upd_nth i (upd rest f) t) [] 0 init [] [])).
     rewrite (rres_eta (run_kids t [] 0 init [] [])).
-    rewrite A, B, C, D, !filter_app. unfold flush_queue. f_equal. f_equal; apply filter_comm.
+    rewrite B, C, D, !filter_app. reflexivity.
   Qed.
 End Path.
